@@ -28,7 +28,7 @@ def functors(s, d):
 def otsu(s):
     S = CT[s]
     return [
-        Sym(H, r"histogram\[(max == min \?[^;\]]*)\]\+\+;", "otsu_index_%s" % s,
+        Sym(H, r"histogram\[(max == min \?[^;]*)\]\+\+;", "otsu_index_%s" % s,
             [("px", S), ("min", S), ("max", S)], ret="int", expr=True, subst=[(r"src_it\[x\]", "px")],
             doc="otsu_impl: histogram index of a pixel from the scanned min/max, source channel %s" % S),
     ]
